@@ -195,6 +195,40 @@ SameScalar(c, orc, a, b) ==
   ELSE IF a.log[Len(a.log)].vals # b.log[Len(b.log)].vals THEN "SameScalarFunction"
   ELSE "ok"
 
+(* ---- C11: allocations are big enough and never overlap while live ---- *)
+RECURSIVE LevelsMax(_, _)
+LevelsMax(levels, j) == IF j > Len(levels) THEN 0 ELSE (levels[j].b - 1) * levels[j].s + LevelsMax(levels, j + 1)
+RECURSIVE DimsMax(_, _)
+DimsMax(L, d) == IF d > Len(L.dims) THEN 0 ELSE LevelsMax(L.dims[d], 1) + DimsMax(L, d + 1)
+NeedBytes(L, w) == (L.off + DimsMax(L, 1) + 1) * w     \* highest address the layout can touch, plus one element
+
+AllocSize(c, orc, a, b) ==
+  IF b.fault # "none" THEN "B.fault:" \o b.fault
+  ELSE LET evs == {i \in DOMAIN b.log : b.log[i].k = "alloc"} IN
+       IF evs = {} THEN "NoAllocation"
+       ELSE IF \E i \in evs : b.log[i].size < NeedBytes(c.L, c.w) THEN "AllocationBigEnough"
+       ELSE "ok"
+
+AllocIdx(log) == {i \in DOMAIN log : log[i].k = "alloc"}
+UsesInst(uf, e, inst) == e.k = "op" /\ \E j \in DOMAIN e.vals : RootOf(uf, e.vals[j]) = inst
+LastUse(uf, log, i) ==
+  LET us == {j \in DOMAIN log : j > i /\ UsesInst(uf, log[j], log[i].inst)} IN
+  IF us = {} THEN i ELSE CHOOSE j \in us : \A j2 \in us : j2 <= j
+Placement(c, orc, a, b) ==
+  IF b.fault # "none" THEN "B.fault:" \o b.fault
+  ELSE LET log == b.log  uf == b.uf  al == AllocIdx(log)
+           P(i) == c.places[log[i].site] IN
+    IF \E i \in al : log[i].site > Len(c.places) THEN "EveryAllocationPlaced"
+    ELSE IF \E i \in al : ~(P(i).addr >= P(i).start /\ P(i).addr + P(i).size <= P(i).start + P(i).capacity) THEN "InsideMemoryWindow"
+    ELSE IF \E i \in al : P(i).align > 0 /\ P(i).addr % P(i).align # 0 THEN "Aligned"
+    ELSE IF \E i \in al : P(i).size < log[i].size THEN "PlacedSizeCoversRequest"
+    ELSE IF \E i, j \in al :
+              /\ i < j /\ P(i).mem = P(j).mem
+              /\ LastUse(uf, log, i) >= j                                  \* lifetimes overlap (i is still used after j is allocated)
+              /\ ~(P(i).addr + P(i).size <= P(j).addr \/ P(j).addr + P(j).size <= P(i).addr)
+         THEN "LiveBuffersDisjoint"
+    ELSE "ok"
+
 Judge(contract, c, orc, a, b) ==
   IF a.fault # "none" THEN "skipA:" \o a.fault
   ELSE CASE contract \in {"dedup", "overlap", "trace"} -> AccfgObs(a, b)
@@ -207,5 +241,7 @@ Judge(contract, c, orc, a, b) ==
          [] contract = "barriers" -> Barriers(c, orc, a, b)
          [] contract = "pipeline" -> Pipelined(c, orc, a, b)
          [] contract = "scalar" -> SameScalar(c, orc, a, b)
+         [] contract = "allocsize" -> AllocSize(c, orc, a, b)
+         [] contract = "placement" -> Placement(c, orc, a, b)
          [] OTHER -> "machinery:unknown-contract"
 =============================================================================
